@@ -5,7 +5,8 @@ import json, sys, glob, os
 ROOT=os.path.dirname(os.path.abspath(__file__))
 def load(p):
     return json.load(open(p)) if os.path.exists(p) else {"findings":[]}
-def save(p,d): json.dump(d,open(p,'w'),indent=1); open(p,'a').write('\n')
+def save(p,d):
+    json.dump(d,open(p,'w'),indent=1); open(p,'a').write('\n')  # keeps every top-level key of d (e.g. 'about')
 if sys.argv[1]=='fixed':
     prop,sub,commit=sys.argv[2:5]
     for p in [ROOT+'/known_findings.json']+glob.glob(ROOT+'/known_findings.d/*.json'):
